@@ -363,4 +363,9 @@ theorem skipBodyV1_spec (m : Msg) (hk : InRange M32 (optLen m.key : Int)) (hv : 
     AllOrShort skipBodyV1 (nbytes m.key ++ nbytes m.value) () :=
   aos_bind (q := fun _ => discardBytes32) (aos_discardBytes32 m.key hk) (aos_discardBytes32 m.value hv)
 
+/-- a wrapper message: the key — whatever it is — is passed over, the value (the compressed inner set) is what is read -/
+theorem readWrapV1_spec (m : Msg) (hk : InRange M32 (optLen m.key : Int)) (hv : InRange M32 (optLen m.value : Int)) :
+    AllOrShort readWrapV1 (nbytes m.key ++ nbytes m.value) m.value :=
+  aos_bind (q := fun _ => readBytes32) (aos_discardBytes32 m.key hk) (aos_readBytes32 m.value hv)
+
 end KV.C02.BR
